@@ -104,7 +104,8 @@ fn lines_case(id: &str, text: &str, reqs: &[i64]) {
     let sv = sourcemap::SourceView::new(text.into());
     let mut outs = vec![];
     for &q in reqs {
-        let o = catch_unwind(AssertUnwindSafe(|| if q < 0 { sv.line_count().to_string() } else { sv.get_line(q as u32).map(|s| hex(s.as_bytes())).unwrap_or("-".into()) })).unwrap_or("panic".into());
+        // -1 = line_count(), -2 = lines() collected, otherwise get_line(q); q may be u32::MAX
+        let o = catch_unwind(AssertUnwindSafe(|| if q == -1 { sv.line_count().to_string() } else if q == -2 { format!("[{}]", sv.lines().map(|s| hex(s.as_bytes())).collect::<Vec<_>>().join("/")) } else { sv.get_line(q as u32).map(|s| hex(s.as_bytes())).unwrap_or("-".into()) })).unwrap_or("panic".into());
         outs.push(o);
     }
     println!("{}\tlines\t{}\t{}\t{}", id, hex(text.as_bytes()), reqs.iter().map(|x| x.to_string()).collect::<Vec<_>>().join(","), outs.join(","));
@@ -177,7 +178,7 @@ fn run_slices(r: &mut Rng, n: u64) {
 }
 fn run_lines(r: &mut Rng, n: u64) {
     let al = ['a', '\u{e9}', '\u{1F44C}', '\n', '\r', 'b'];
-    for i in 0..n { let len = r.below(10); let text: String = (0..len).map(|_| al[r.below(6) as usize]).collect(); let k = 1 + r.below(5); let reqs: Vec<i64> = (0..k).map(|_| r.below(8) as i64 - 1).collect(); lines_case(&format!("r{}", i), &text, &reqs); }
+    for i in 0..n { let len = r.below(10); let text: String = (0..len).map(|_| al[r.below(6) as usize]).collect(); let k = 1 + r.below(5); let reqs: Vec<i64> = (0..k).map(|_| match r.below(12) { 0 => -2, 1 => u32::MAX as i64, 2 => 1000, _ => r.below(8) as i64 - 1 }).collect(); lines_case(&format!("r{}", i), &text, &reqs); }
 }
 fn run_adjust(r: &mut Rng, n: u64) {
     let t = |dl, dc, sl, sc| Tok { dl, dc, sl, sc, src: 0, name: !0, range: false };
@@ -236,7 +237,7 @@ fn run_rewrite(r: &mut Rng, n: u64) {
     for i in 0..n {
         let sm = gen_map(r, false); let input = map_in(&sm);
         let wn = r.below(2) == 0; let wc = r.below(2) == 0;
-        let prefixes: Vec<&str> = match r.below(5) { 0 => vec!["/abs"], 1 => vec!["/abs/", "http://x"], 2 => vec!["~"], _ => vec![] };
+        let prefixes: Vec<&str> = match r.below(8) { 0 => vec!["/abs"], 1 => vec!["/abs/", "http://x"], 2 => vec!["~"], 3 => vec!["~", "/abs"], 4 => vec!["http://x", "~", "/abs/e"], _ => vec![] };
         let opts = sourcemap::RewriteOptions { with_names: wn, with_source_contents: wc, strip_prefixes: &prefixes, ..Default::default() };
         let out = match catch_unwind(AssertUnwindSafe(|| sm.rewrite(&opts))) { Ok(Ok(m)) => format!("ok {}", map_obs(&m)), Ok(Err(e)) => format!("err {}", err_name(&e)), Err(_) => "panic".into() };
         println!("r{}\trewrite\t{}\t{}\t{}\t{}\t{}", i, input, wn as u8, wc as u8, prefixes.iter().map(|p| hex(p.as_bytes())).collect::<Vec<_>>().join(","), out);
@@ -316,15 +317,34 @@ impl<'a> std::io::Read for Chunked<'a> {
         buf[..s].copy_from_slice(&self.data[self.pos..self.pos + s]); self.pos += s; Ok(s)
     }
 }
+fn own_b64(data: &[u8]) -> String {
+    const A: &[u8] = b"ABCDEFGHIJKLMNOPQRSTUVWXYZabcdefghijklmnopqrstuvwxyz0123456789+/";
+    let mut out = String::new();
+    for ch in data.chunks(3) { let b = [ch[0], *ch.get(1).unwrap_or(&0), *ch.get(2).unwrap_or(&0)]; let v = ((b[0] as u32) << 16) | ((b[1] as u32) << 8) | b[2] as u32;
+        out.push(A[(v >> 18) as usize & 63] as char); out.push(A[(v >> 12) as usize & 63] as char);
+        out.push(if ch.len() > 1 { A[(v >> 6) as usize & 63] as char } else { '=' }); out.push(if ch.len() > 2 { A[v as usize & 63] as char } else { '=' }); }
+    out
+}
 fn run_hdr(r: &mut Rng, n: u64) {
-    let body = br#"{"version":3,"sources":["a"],"names":[],"mappings":"AAAA"}"#;
-    let headers: Vec<&[u8]> = vec![b"", b")]}'\n", b")]}'\r\n", b")]}'\r", b")]}'", b")\n", b"]\r\r\n", b"}garbage)]}\n", b"'\n\n", b")]}\rx\n", b"x)]}\n", b")\r\n\r\n"];
+    let bodies: Vec<&[u8]> = vec![br#"{"version":3,"sources":["a"],"names":[],"mappings":"AAAA"}"#, br#"{"version":3,"sections":[{"offset":{"line":0,"column":0},"map":{"version":3,"sources":["a"],"names":[],"mappings":"AAAA"}}]}"#,
+        br#"{"version":3,"sources":["a"],"names":[],"mappings":"AAAA","x_facebook_sources":[null]}"#, br#"{"file":"x"}"#, br#"[1,2]"#];
+    let headers: Vec<&[u8]> = vec![b"", b")]}'\n", b")]}'\r\n", b")]}'\r", b")]}'", b")\n", b"]\r\r\n", b"}garbage)]}\n", b"'\n\n", b")]}\rx\n", b"x)]}\n", b")\r\n\r\n", b")]}'\r\r\n", b"'\r", b"]\n\r\n", b"}{\n"];
     for i in 0..n {
-        let mut doc = headers[r.below(headers.len() as u64) as usize].to_vec(); let cut = [0usize, 0, 0, 1, 7][r.below(5) as usize]; doc.extend_from_slice(&body[..body.len() - cut]);
-        let sizes: Vec<usize> = (0..1 + r.below(3)).map(|_| 1 + r.below(7) as usize).collect();
-        let a = if sourcemap::decode_slice(&doc).is_ok() { "ok" } else { "err" };
-        let b = if sourcemap::decode(Chunked { data: &doc, pos: 0, sizes: sizes.clone(), k: 0 }).is_ok() { "ok" } else { "err" };
-        println!("r{}\thdr\t{}\t{}\t{}\t{}", i, hex(&doc), sizes.iter().map(|x| x.to_string()).collect::<Vec<_>>().join(","), a, b);
+        let body = bodies[if r.below(3) == 0 { r.below(bodies.len() as u64) as usize } else { 0 }];
+        let mut doc = headers[r.below(headers.len() as u64) as usize].to_vec(); let cut = [0usize, 0, 0, 1, 7][r.below(5) as usize].min(body.len()); doc.extend_from_slice(&body[..body.len() - cut]);
+        // reads: mostly short; sometimes a first read that ends exactly after the header line, or one big read
+        let hdr_len = doc.iter().position(|&b| b == b'\n').map(|k| k + 1).unwrap_or(1);
+        let sizes: Vec<usize> = match r.below(6) { 0 => vec![hdr_len.max(1), 1 + r.below(7) as usize], 1 => vec![doc.len().max(1)], 2 => vec![1], _ => (0..1 + r.below(3)).map(|_| 1 + r.below(7) as usize).collect() };
+        let res = |x: sourcemap::Result<sourcemap::DecodedMap>| match x { Ok(dm) => format!("ok:{}", match dm { sourcemap::DecodedMap::Regular(m) => format!("R{}", m.get_token_count()), sourcemap::DecodedMap::Index(m) => format!("I{}", m.get_section_count()), sourcemap::DecodedMap::Hermes(m) => format!("H{}", m.get_token_count()) }), Err(_) => "err".to_string() };
+        let out = catch_unwind(AssertUnwindSafe(|| {
+            let a = res(sourcemap::decode_slice(&doc));
+            let b = res(sourcemap::decode(Chunked { data: &doc, pos: 0, sizes: sizes.clone(), k: 0 }));
+            // the detection predicates on both paths, and the same bytes as the payload of a base64 data URL
+            let da = sourcemap::is_sourcemap_slice(&doc); let db = sourcemap::is_sourcemap(Chunked { data: &doc, pos: 0, sizes: sizes.clone(), k: 0 });
+            let url = format!("data:application/json;{}base64,{}", if i % 2 == 0 { "" } else { "charset=utf-8;" }, own_b64(&doc));
+            let c = res(sourcemap::decode_data_url(&url));
+            format!("{}\t{}\t{}\t{}\t{}", a, b, da as u8, db as u8, c) })).unwrap_or("panic\tpanic\t0\t0\tpanic".into());
+        println!("r{}\thdr\t{}\t{}\t{}", i, hex(&doc), sizes.iter().map(|x| x.to_string()).collect::<Vec<_>>().join(","), out);
     }
 }
 
@@ -778,6 +798,9 @@ fn run_order(r: &mut Rng, n: u64) {
         let raw: Vec<sourcemap::RawToken> = toks.iter().map(|t| sourcemap::RawToken { dst_line: t.dl, dst_col: t.dc, src_line: t.sl, src_col: t.sc, src_id: t.src, name_id: t.name, is_range: t.range }).collect();
         let out = match catch_unwind(AssertUnwindSafe(|| { let sm = sourcemap::SourceMap::new(None, raw, vec!["n0".into(), "n1".into()], vec!["a".into(), "b".into()], None);
             let via_new: Vec<Tok> = sm.tokens().map(|t| raw_of(&t)).collect();
+            // get_token(i) agrees with the i-th iterated token, get_token(count) is None, the count is the number iterated
+            let by_index: Vec<Tok> = (0..sm.get_token_count() as usize).map(|k| raw_of(&sm.get_token(k).unwrap())).collect();
+            assert!(by_index == via_new && sm.get_token(via_new.len()).is_none() && sm.tokens().enumerate().all(|(k, t)| t.get_raw_token() == sm.get_token(k).unwrap().get_raw_token()), "get_token disagrees with iteration");
             let via_builder: Vec<Tok> = build_map(2, 2, &toks).tokens().map(|t| raw_of(&t)).collect();
             (via_new, via_builder) })) { Ok((a, b)) => format!("{}\t{}", toks_str(&a), toks_str(&b)), Err(_) => "panic\tpanic".into() };
         println!("o{}\torder\t{}\t{}", i, toks_str(&toks), out);
@@ -785,23 +808,31 @@ fn run_order(r: &mut Rng, n: u64) {
 }
 // ---- C13: builder histories: interning, returned ids, finished map ----
 fn run_builder(r: &mut Rng, n: u64) {
-    let spool = ["a.js", "b.js", "", "a.js", "/abs/c.js", "https:g.js"]; let npool = ["x", "y", "", "x"];
+    let spool = ["a.js", "b.js", "", "a.js", "/abs/c.js", "https:g.js", "http://h/i.js"]; let npool = ["x", "y", "", "x"];
     for i in 0..n {
-        let mut b = sourcemap::SourceMapBuilder::new(if r.below(2) == 0 { Some("out.js") } else { None });
-        let mut ops = vec![]; let mut rets = vec![];
-        for _ in 0..r.below(12) {
-            match r.below(6) {
-                0 => { let s = spool[r.below(spool.len() as u64) as usize]; ops.push(format!("S={}", hex(s.as_bytes()))); rets.push(b.add_source(s).to_string()); }
+        let file0 = if r.below(2) == 0 { Some("out.js") } else { None };
+        let mut b = sourcemap::SourceMapBuilder::new(file0);
+        let mut ops = vec![format!("F{}", opt_hex(file0))]; let mut rets = vec!["-".to_string()]; let mut nsrc = 0u32;
+        for _ in 0..r.below(14) {
+            match r.below(11) {
+                0 => { let s = spool[r.below(spool.len() as u64) as usize]; ops.push(format!("S={}", hex(s.as_bytes()))); let id = b.add_source(s); nsrc = nsrc.max(id + 1); rets.push(id.to_string()); }
                 1 => { let s = npool[r.below(npool.len() as u64) as usize]; ops.push(format!("N={}", hex(s.as_bytes()))); rets.push(b.add_name(s).to_string()); }
                 2 => { let rt = ["", "root", "root/"][r.below(3) as usize]; ops.push(format!("R={}", hex(rt.as_bytes()))); b.set_source_root(Some(rt)); rets.push("-".into()); }
+                3 if nsrc > 0 => { let k = r.below(nsrc as u64) as u32; let c = match r.below(3) { 0 => None, 1 => Some(""), _ => Some("body") }; ops.push(format!("C{}:{}", k, opt_hex(c))); b.set_source_contents(k, c); rets.push("-".into()); }
+                4 if nsrc > 0 => { let k = r.below(nsrc as u64) as u32; ops.push(format!("I{}", k)); b.add_to_ignore_list(k); rets.push("-".into()); }
+                5 => { let f = [None, Some("x.js"), Some("")][r.below(3) as usize]; ops.push(format!("F{}", opt_hex(f))); b.set_file(f); rets.push("-".into()); }
+                6 => { let d = if r.below(3) == 0 { None } else { Some(1 + r.below(3)) }; ops.push(format!("D{}", d.map(|k| k.to_string()).unwrap_or("-".into())));
+                       b.set_debug_id(d.map(|k| format!("00000000-0000-0000-0000-0000000000{:02x}", k).parse().unwrap())); rets.push("-".into()); }
                 _ => { let so = if r.below(5) == 0 { None } else { Some(spool[r.below(spool.len() as u64) as usize]) }; let na = if r.below(3) == 0 { Some(npool[r.below(npool.len() as u64) as usize]) } else { None };
                        let (dl, dc, sl, sc) = (r.below(3) as u32, r.below(6) as u32, r.below(5) as u32, r.below(5) as u32); let rg = r.below(6) == 0;
                        ops.push(format!("A{}:{}:{}:{}:{}:{}:{}", dl, dc, sl, sc, so.map(|s| format!("={}", hex(s.as_bytes()))).unwrap_or("-".into()), na.map(|s| format!("={}", hex(s.as_bytes()))).unwrap_or("-".into()), if rg { 1 } else { 0 }));
-                       let t = b.add(dl, dc, sl, sc, so, na, rg); rets.push(format!("{}/{}", t.src_id, t.name_id)); }
+                       let t = b.add(dl, dc, sl, sc, so, na, rg); if t.src_id != !0 { nsrc = nsrc.max(t.src_id + 1); } rets.push(format!("{}/{}", t.src_id, t.name_id)); }
             }
         }
         let sm = b.into_sourcemap();
-        println!("b{}\tbuilder\t{}\t{}\t{}", i, ops.join(";"), rets.join(","), map_obs(&sm));
+        // what the finished map reports, by strings: root, debug id, and every token as a resolved view (sorted: finishing sorts by position)
+        let mut views: Vec<String> = sm.tokens().map(|t| view_of(&t)).collect(); views.sort();
+        println!("b{}\tbuilder\t{}\t{}\t{}\t{}\t{}\t{}", i, ops.join(";"), rets.join(","), opt_hex(sm.get_source_root()), sm.get_debug_id().map(|d| d.to_string()).unwrap_or("-".into()), views.join(";"), map_obs(&sm));
     }
 }
 
